@@ -50,6 +50,11 @@ CLAIMED = {
   "Trusted: go/ssa, gosym interpreter/scheduler, z3; SHA-256 is replaced by a deterministic mixing model under the engine (a collision could only hide a difference; native replays use the real hash). Outside the claim: Bazel Output Service stat path, fuse/nfs handle allocator link-count wrappers, virtualBuildDirectory.UploadFile plumbing, more than one writer/uploader, preemption bound.",
   "SMT-based symbolic execution of go/ssa (inductive step from symbolic counters) + explored goroutine schedules, native replay",
   "DESIGN.md §4 C16"),
+ "C17": (
+  "Bounded symbolic model checking of the real code: (1) blobAccessCASFile (regular and executable): VirtualOpenSelf for every 32-bit share mask and truncate flag succeeds only read-only/non-truncating; VirtualSetAttributes for every combination of size/owner/group/permission attributes with symbolic values never changes the size and refuses size and ownership changes; VirtualAllocate for all 64-bit arguments is refused; VirtualWrite is refused; no Put ever reaches the CAS stub and the upload digest stays the original; (2) casInitialContentsFetcher.FetchContents over Directory messages with <=1 directory, <=2 files, <=1 symlink, names from {a, b, empty, .., a/b}, well-formed or malformed digests, executable bits, and a storage error: success yields exactly the message's names with the right kind, executable bit and digest; invalid or duplicate names (also across kinds) and bad digests yield INVALID_ARGUMENT with no partial tree and every created leaf unlinked exactly once.",
+  "Trusted: go/ssa, gosym interpreter, z3. Outside the claim: file contents read through the CAS, exploration-order independence of the lazily initialised directory tree with interleaved local changes (the in-memory directory itself is covered by C13), caching_directory_fetcher.go, hardlinking_file_fetcher.go and naive_build_directory.go (real file system).",
+  "SMT-based symbolic execution of go/ssa over all masks/attribute sets and bounded Directory messages, native replay",
+  "DESIGN.md §4 C17"),
 }
 
 PENDING_REASON = "check not registered yet (framework under construction; see DESIGN.md §6 build order)"
